@@ -64,7 +64,6 @@ func checkC03(c *Ctx, r *Report) {
 			"(*fbb.Session).writeProposalsAnswer|index proposals[unansweredIdx]": "same: elements of 'unanswered' are indices of 'proposals'",
 			"(*fbb.Session).writeProposalsAnswer|index answers[answerIdx]":       "handler contract: BatchedInboundHandler.GetInboundAnswers returns one answer per proposal it was given (local code, not remote input)",
 			"(*fbb.Message).ReadFrom|index m.files[i]":                           "m.files was made with len(m.Header[File]) two lines above and i ranges over that same header slice; nothing modifies the header in between",
-			"mailbox.LoadMessageDir|index file.Name()[0]":                        "operating system contract: directory entries have non-empty names",
 			"(fbb.ByDate).Swap|index d[i]":                                       "sort.Interface contract: indices passed by package sort are in range",
 			"(fbb.ByDate).Swap|index d[j]":                                       "sort.Interface contract",
 			"(fbb.ByDate).Less|index d[i]":                                       "sort.Interface contract",
@@ -83,6 +82,12 @@ func checkC03(c *Ctx, r *Report) {
 			"(*mailbox.DirHandler).SetSent|fatal log.Fatalf(\"Unable to move %s to %s: %s\", oldPath, newPath, err)": "the trigger is the state of a local outbox file (rename of out/<MID>.b2f fails), not bytes from the remote",
 			"fbb.NewFile|panic panic(\"Empty filename is not allowed\")":                                             "guards local API misuse (NewFile(\"\")); ReadFrom builds File values directly and never calls NewFile",
 		},
+	}
+	// "directory entries have non-empty names" is granted by role, not by function name: every
+	// <entry>.Name()[0] whose entry comes out of a directory listing, also behind a helper's
+	// parameter when every call site passes such an entry (ip_g8.go)
+	for k, why := range g8DirEntryNameExceptions(c, c.reach([]*ssa.Function{ex}, scope), "operating system contract: directory entries have non-empty names") {
+		cfg.exceptions[k] = why
 	}
 	// calls through func-typed fields
 	st := crashInventory(c, r, cfg)
